@@ -251,6 +251,7 @@ RULES = [
     ("X-REEVAL", "an expression evaluated twice for one entry has the same typed value both times (no text-valued memo beside the map handed in) [shared]", lambda ctx: __import__("gcev").reevaluation_is_stable(ctx)),
     ("X-NAMES", "column names and function names do not overlap (a bare word is tried as a column first) [shared]", lambda ctx: __import__("extra2").names_disjoint(ctx)),
     ("X-LEXCLASS", "lexer character classes, context flags, token ends and quoted-literal ends [shared]", lambda ctx: __import__("extra").lexer_classes(ctx)),
+    ("X-QUERY", "the WHERE tree stored in the query is the Boolean function parse_where returned (any rewriting pass in between is followed through) [shared]", lambda ctx: __import__("extra2").where_tree_reaches_query(ctx)),
 ]
 
 EXPLANATION = (
